@@ -6,6 +6,8 @@ CONSTANTS
   NB = 2
   MaxDepth = 0
   UseSystematic = TRUE
+  Bug = "none"
+  RandomPick = FALSE
   UsePreludes = FALSE
   WKey = 1
   WEnv = 1
